@@ -980,7 +980,7 @@ async def search(ctx):
     specs = [make_spec(ctx.seed, i, ctx.tier) for i in range(ncase)]
     soft = 50 if ctx.tier == "quick" else 900
     ran = 0
-    for status, task, res in simpool.run("props.c03", "run_build_case", specs, deadline_s=soft + 120, soft_s=soft):
+    for status, task, res in simpool.run_retrying("props.c03", "run_build_case", specs, deadline_s=soft + 120, soft_s=soft):
         if status == "ok":
             ran += 1
             for k, v in res["counts"].items():
